@@ -5,6 +5,7 @@ import (
 	"go/types"
 	"math"
 	"strconv"
+	"unicode"
 )
 
 // ---- UTF-8 encoding of a symbolic rune (string(r), WriteRune, []rune -> string) ----
@@ -856,4 +857,60 @@ func init() {
 		e.pools[p.slot] = append(e.pools[p.slot], a[1])
 		return nil
 	}
+}
+
+// ---- unicode predicates and case mapping (tables read from the real package) ----
+func rangeTableTerm(r *Term, rt *unicode.RangeTable) *Term {
+	c := tFalse
+	in := func(lo, hi, stride uint32) {
+		if stride == 1 {
+			c = Or(c, And(Bin(OUle, Const(32, uint64(lo)), r), Bin(OUle, r, Const(32, uint64(hi)))))
+			return
+		}
+		// strided range: lo <= r <= hi && (r-lo) % stride == 0
+		d := Bin(OSub, r, Const(32, uint64(lo)))
+		c = Or(c, And(And(Bin(OUle, Const(32, uint64(lo)), r), Bin(OUle, r, Const(32, uint64(hi)))), Eq(Bin(OURem, d, Const(32, uint64(stride))), Const(32, 0))))
+	}
+	for _, x := range rt.R16 {
+		in(uint32(x.Lo), uint32(x.Hi), uint32(x.Stride))
+	}
+	for _, x := range rt.R32 {
+		in(x.Lo, x.Hi, x.Stride)
+	}
+	return c
+}
+
+func init() {
+	pred := func(name string, f func(rune) bool, rt *unicode.RangeTable) {
+		intrinsics["unicode."+name] = func(e *Exec, a []Value) Value {
+			r := a[0].(*Term)
+			if r.IsConst() {
+				return Bool(f(rune(int32(r.V))))
+			}
+			e.modelsUsed["unicode."+name+" (model: the package's range table as one term)"]++
+			return rangeTableTerm(Zext(r, 32), rt)
+		}
+	}
+	pred("IsLetter", unicode.IsLetter, unicode.Letter)
+	pred("IsDigit", unicode.IsDigit, unicode.Digit)
+	pred("IsNumber", unicode.IsNumber, unicode.Number)
+	pred("IsUpper", unicode.IsUpper, unicode.Upper)
+	pred("IsLower", unicode.IsLower, unicode.Lower)
+	pred("IsPunct", unicode.IsPunct, unicode.Punct)
+	pred("IsSpace", unicode.IsSpace, unicode.White_Space)
+	cm := func(name string, f func(rune) rune, lo, hi byte, delta uint64) {
+		intrinsics["unicode."+name] = func(e *Exec, a []Value) Value {
+			r := a[0].(*Term)
+			if r.IsConst() {
+				return Const(32, uint64(uint32(f(rune(int32(r.V))))))
+			}
+			if e.decide(Bin(OUle, Const(32, 0x80), r)) {
+				e.cut("unsupported-symbolic:non-ASCII case mapping")
+			}
+			in := And(Bin(OUle, Const(32, uint64(lo)), r), Bin(OUle, r, Const(32, uint64(hi))))
+			return Ite(in, Bin(OAdd, r, Const(32, delta)), r)
+		}
+	}
+	cm("ToUpper", unicode.ToUpper, 'a', 'z', 0xFFFFFFE0)
+	cm("ToLower", unicode.ToLower, 'A', 'Z', 0x20)
 }
